@@ -65,7 +65,7 @@ func runGenerated(p *Program, r *RuleResult) {
 func runKindExh(p *Program, r *RuleResult) {
 	kind := p.Named(parserPkg, "Kind")
 	consts := p.EnumConsts(kind)
-	fn := p.Func(parserPkg, "expandProcesses")
+	fn := p.expandFunc()
 	view := p.View(fn)
 	name := fnName(fn)
 	r.count("statement kinds", len(consts))
